@@ -297,7 +297,22 @@ def rule_propagation(ctx):
         ctx.violated('R5', fi, s.node, 'the dimension name used to address the variables is read *after* the replacement, i.e. it is the new axis\' name: when the new '
                      'Axis carries another name the variables keep their old Axis object; remember the old name before calling Axes.__setitem__', node=s.node)
         return
-    if not (s.a[0] == 'attr' and s.a[2] == 'axes' and s.a[1][0] == 'sub' and s.a[1][1] == ('attr', SELF, '_ds')):
+    DSF = ('attr', SELF, '_ds')
+
+    def is_ds_var(x, depth=0):
+        # self._ds[k], or an element of dictvalues(self._ds) / self._ds.values() - directly or through a (filtering) comprehension / generator over them
+        from ..rules import elem_of_comp
+        if x[0] == 'sub' and x[1] == DSF:
+            return True
+        if x[0] == 'elem' and depth < 3:
+            src = x[1]
+            if src[0] == 'call' and ((T.call_name(src) in ('dictvalues', 'itervalues', 'list') and src[2][:1] == (DSF,)) or (T.call_name(src) == 'values' and T.call_receiver(src) == DSF)):
+                return True
+            ec = elem_of_comp(x)
+            if ec is not None:
+                return is_ds_var(ec[0], depth + 1)
+        return False
+    if not (s.a[0] == 'attr' and s.a[2] == 'axes' and is_ds_var(s.a[1])):
         ctx.violated('R5', fi, s.node, 'the assignment must go to the axes of each variable of the attached dataset', node=s.node)
         return
     if s.c == ('sub', SELF, KEY):
